@@ -206,3 +206,29 @@ Theorem C08_tfr_cursor_checked : forall unadorned segs offs prog,
   tfr_run (tfr_init unadorned segs offs) prog = Some (run_spec (tfr_global segs offs) prog).
 Proof. exact tfr_cursor_checked. Qed.
 Print Assumptions C08_tfr_cursor_checked.
+
+(* ---------- indexes whose internal ids are byte strings (upsidedown): the key table of a
+   MachCorr.CKeyed case (Cursor/MachProofsKeyed.v) ---------- *)
+From Verif Require Import Common.Bytes Cursor.MachProofsKeyed.
+
+(* naming ids by their index in a table that passes [keys_ascb] preserves the order of
+   bytes.Compare (= index.IndexInternalID.Compare) and is injective, so every statement above about
+   numeric ids is a statement about the byte-string ids of such an index *)
+Theorem C08_keyed_order : forall ks, keys_ascb ks = true ->
+  forall i j a b, nth_error ks i = Some a -> nth_error ks j = Some b ->
+  ((i < j)%nat <-> bcompare a b = Lt) /\ (i = j <-> a = b).
+Proof. exact keys_ascb_order. Qed.
+Print Assumptions C08_keyed_order.
+
+(* the table is written one number per key; reading it back inverts the writer *)
+Theorem C08_keyed_key_roundtrip : forall bs, valid_bytes bs = true -> (length bs < 64)%nat ->
+  key_bytes (key_num bs) = Some bs.
+Proof. exact key_bytes_num. Qed.
+Print Assumptions C08_keyed_key_roundtrip.
+
+Theorem C08_keyed_check : forall keys c, check (CKeyed keys c) = true ->
+  exists tbl, decode_keys keys = Some tbl /\ length tbl = length keys /\
+    keys_ascb tbl = true /\ forallb valid_bytes tbl = true /\
+    Forall (fun x => 0 <= x < Z.of_nat (length tbl)) (case_ids c) /\ check c = true.
+Proof. exact check_keyed. Qed.
+Print Assumptions C08_keyed_check.
